@@ -60,6 +60,8 @@ var props = map[string]prop{
 	"C20": {"exploration", c20.Run},
 }
 
+var raceWorkers = map[string]func(*evid.Ctx){"C10": c10.RaceWorker}
+
 func main() {
 	if len(os.Args) < 3 {
 		fmt.Fprintln(os.Stderr, "usage: verifcheck <ID> <quick|thorough>")
@@ -99,6 +101,15 @@ func main() {
 			os.Exit(2)
 		}
 		c.Violation(id+":panic:"+site, fmt.Sprintf("the code under test panicked inside a case of this check: %v at %s", r, site), map[string]interface{}{"panic": fmt.Sprint(r), "stack": stack})
+	}
+	if shard.RaceWorker() != nil {
+		rw, ok := raceWorkers[id]
+		if !ok {
+			fmt.Fprintln(os.Stderr, "verifcheck: no race pass for", id)
+			os.Exit(2)
+		}
+		rw(c)
+		os.Exit(c.FinishWorker())
 	}
 	func() {
 		defer func() {
